@@ -34,6 +34,18 @@ struct Map : IMap
       for (size_t i = 0; i < DIM; ++i) { lo(i) = vp::parseF<S>(t[3 + i]); hi(i) = vp::parseF<S>(t[3 + DIM + i]); }
       g.reset(new G(typename G::IntervalType(lo, hi), vp::parseF<S>(t[3 + 2 * DIM])));
     }
+    // VALUE SEMANTICS: every second mapping the case works with is a COPY (copy construction / copy assignment in turn) of the one
+    // just built, whose source is then re-assigned to an unrelated small mapping and destroyed — a copy must not depend on its
+    // source (seeded change c13d: cached raw pointers into the object's own centre tables, shallow-copied by the implicit copies)
+    static unsigned long made = 0;
+    ++made;
+    if (made % 2 == 0) {
+      std::unique_ptr<G> src = std::move(g);
+      if (made % 4 == 0) { g.reset(new G(*src)); } else { g.reset(new G(S(1), S(0.5))); *g = *src; }
+      typename G::PointType a = G::PointType::Constant(S(100)), b = G::PointType::Constant(S(103));
+      *src = G(typename G::IntervalType(a, b), S(0.25));
+      src.reset();
+    }
   }
 
   std::string describe() const override
